@@ -1,5 +1,6 @@
 import Lean.Data.Json
 import Placement.Model.Handlers
+import Placement.Model.Txn
 /-
   Line-protocol driver of the executable model (unverified glue, exercised by the correspondence
   check): one JSON object per input line, one JSON object per output line.
@@ -296,6 +297,36 @@ def loadDump (j : Json) : M Unit := do
   db := { db with aggs := a1, projects := a2, users := a3, ctypes := a4 }
   modify fun st => { st with db := db }
 
+def lblStr : Lbl → String
+  | .getRp => "getRp" | .getTraits => "getTraits" | .main => "main" | .getProject => "getProject"
+  | .createProject => "createProject" | .getUser => "getUser" | .createUser => "createUser"
+  | .getConsumer => "getConsumer" | .getCtype => "getCtype" | .createCtype => "createCtype"
+  | .createConsumer => "createConsumer" | .getAllocs => "getAllocs" | .cleanup => "cleanup" | .other => "other"
+
+def respJson (r : Resp) : Json := Json.mkObj [("status", r.status), ("code", codeStr r.code)]
+
+/-- run a schedule over the transaction programs of several requests; a schedule entry naming a
+finished request is skipped; when the schedule is exhausted the remaining requests run to the end
+in index order (as the harness does) -/
+partial def runSchedule (db : DB Float) (ps : Array (P Float)) (sched : List Nat) (trace : Array Json) :
+    DB Float × Array (P Float) × Array Json :=
+  let stepReq (i : Nat) (db : DB Float) (ps : Array (P Float)) (trace : Array Json) :=
+    match ps[i]? with
+    | some (.txn l f) =>
+      let (db', p') := f db
+      (db', ps.set! i p', trace.push (Json.arr #[i, lblStr l]))
+    | _ => (db, ps, trace)
+  match sched with
+  | i :: rest =>
+    let (db', ps', tr') := stepReq i db ps trace
+    runSchedule db' ps' rest tr'
+  | [] =>
+    match (List.range ps.size).find? (fun i => match ps[i]? with | some (.txn _ _) => true | _ => false) with
+    | some i =>
+      let (db', ps', tr') := stepReq i db ps trace
+      runSchedule db' ps' [] tr'
+    | none => (db, ps, trace)
+
 /-- extension commands registered by other driver modules -/
 abbrev Ext := Json → M (Option Json)
 
@@ -313,6 +344,23 @@ def handleCore (j : Json) : M Json := do
       cfg := { incompleteProject := p, incompleteUser := u } }
     return Json.mkObj [("ok", true)]
   | .ok "dump" => return dumpJson (← get)
+  | .ok "sched" =>
+    let ops ← (← arr j "ops").toList.mapM parseOp
+    let sched ← (← arr j "schedule").toList.mapM (fun x => match x.getNat? with | .ok n => pure n | .error e => throw e)
+    let st ← get
+    let ps := (ops.map (prog st.cfg)).toArray
+    let (db', ps', trace) := runSchedule st.db ps sched #[]
+    set { st with db := db' }
+    let res := ps'.map (fun p => match p with | .done r => respJson r | .txn _ _ => Json.null)
+    return Json.mkObj [("responses", Json.arr res), ("trace", Json.arr trace)]
+  | .ok "seqprog" =>
+    let op ← parseOp (← fld j "op")
+    let st ← get
+    let (db', r) := Prog.runSeq 500 (prog st.cfg op) st.db
+    set { st with db := db' }
+    match r with
+    | some r => return respJson r
+    | none => throw "out of fuel"
   | .ok "load" =>
     loadDump (← fld j "dump")
     return Json.mkObj [("ok", true)]
@@ -322,7 +370,7 @@ def handleCore (j : Json) : M Json := do
     let st ← get
     let (db', r) := step st.cfg st.db op
     set { st with db := db' }
-    return Json.mkObj [("status", r.status), ("code", codeStr r.code)]
+    return respJson r
 
 
 def handleWith (exts : List Ext) (j : Json) : M Json := do
